@@ -93,59 +93,35 @@ class SliceInner:
 def _slice_inner(slize: Slice) -> SliceInner:
     """Calculate the inner resolved fields for `slize`"""
 
+    # Local import, as the width-helper imports (nearly) all connectable types, this one included.
+    from .elab.helpers.width import width as width_of
+
     parent = slize.parent
     index = slize.index
+    # Note `width_of` also covers references (`PortRef`, `BundleRef`), which have no `width` attribute of their own.
+    parent_width = width_of(parent)
 
     if isinstance(index, int):
-        if index >= parent.width:
+        if index >= parent_width or index < -parent_width:
             raise ValueError(f"Out-of-bounds index {index} into {parent}")
         if index < 0:
-            index += parent.width
+            index += parent_width
         return SliceInner(top=index + 1, bot=index, step=1, width=1)
 
     if isinstance(index, slice):
-        # Note these `slice` attributes are descriptor-things, and they get weird, fast.
-        # Extracting their three index fields the most-hardest way via `__getattribute__` seems to work cleanest.
-        start = slice.__getattribute__(index, "start")
-        stop = slice.__getattribute__(index, "stop")
-        step = slice.__getattribute__(index, "step")
+        # Python's own normalization: clamps to the parent width, handles negative and omitted fields,
+        # and raises a `ValueError` for zero-valued steps.
+        start, stop, step = index.indices(parent_width)
+        width = len(range(start, stop, step))
+        if width < 1:
+            raise ValueError(f"Empty slice {index} into {parent}")
 
-        step = 1 if step is None else step
-        if step == 0:
-            raise ValueError(f"slice step cannot be zero")
-        elif step < 0:
-            # Here `top` gets a "+1" since `start` is *inclusive*, while `bot` gets "+1" as `stop` is *exclusive*.
-            top = (
-                parent.width
-                if start is None
-                else start + 1
-                if start >= 0
-                else parent.width + start + 1
-            )
-            bot = (
-                0
-                if stop is None
-                else stop + 1
-                if stop >= 0
-                else parent.width + stop + 1
-            )
-            # Align bot with the step
-            bot += (top - bot) % abs(step)
+        # `bot` is the lowest selected index, and `top` one past the highest, for both signs of `step`.
+        last = start + (width - 1) * step
+        if step > 0:
+            bot, top = start, last + 1
         else:
-            # Here `start` and `stop` match `top` and `bot`'s inclusive/exclusivity.
-            # No need to add any offsets.
-            top = (
-                parent.width
-                if stop is None
-                else stop
-                if stop >= 0
-                else parent.width + stop
-            )
-            bot = 0 if start is None else start if start >= 0 else parent.width + start
-            # Align top with the step
-            top -= (top - bot) % step
-
-        width = (top - bot) // step
+            bot, top = last, start + 1
 
         # Create and return our Slice. More checks are done in its constructor.
         return SliceInner(top=top, bot=bot, step=step, width=width)
